@@ -179,3 +179,28 @@ def mutates_self(body, t, term):
         if i < len(term[2]) and atoms.mentions_param(term[2][i], "self"):
             return True
     return False
+
+
+def expand_phi_cases(b, cases):
+    """split return cases whose term contains a phi of a multiply-assigned local into one case per
+    assignment of that local (with that assignment's own guard)"""
+    out = []
+    for g, term, bi in cases:
+        phis = [t for t in mir.subterms(term) if t[0] == "phi" and len(t) > 2 and t[2] is not None]
+        if phis:
+            ph = phis[0]
+            for g2, t2, bi2 in b.local_cases(ph[2]):
+                out.append((g2, mir.subst(term, lambda x: t2 if x == ph else None), bi2))
+        else:
+            out.append((g, term, bi))
+    return out
+
+
+def variant_of(g, path_render):
+    """names the guard restricts `path` to (union over disjuncts), or None"""
+    names = set()
+    for conj in g:
+        for a in conj:
+            if a[0] == "is" and render(a[1]) == path_render:
+                names |= set(a[2])
+    return names or None
